@@ -62,10 +62,26 @@ def far_basin_specs(ctx):
     return specs
 
 
+def long_log_specs(ctx):
+    """Logs several times longer than the training-set limit (small n_train_max / n_train_min, enough evaluations): the surrogate is then conditioned
+    on a small part of the log, and the selection - nearest first, ordered by distance, capped - is exercised where a selection over a LONG log could
+    take a different code path than over a short one."""
+    from .. import gen
+    rng = ctx.sub_rng("c15long")
+    specs = []
+    for mode, ntmax, ntmin in ((("det", 10, 5), ("det", 8, 4), ("decl", 12, 6)) if ctx.quick else
+                               (("det", 10, 5), ("det", 8, 4), ("decl", 12, 6), ("he", 12, 6), ("det", 15, 15), ("auto", 10, 5), ("det", 16, 4), ("det", 12, 10))):
+        sp = gen.make_spec(rng, D=rng.choice([1, 2, 2]), geom=rng.choice(["box", "tight", "unbounded"]), mode=mode, cons=None, target=rng.choice(["quad", "abs"]))
+        sp["options"] = {"n_search": 32, "n_train_max": ntmax, "n_train_min": ntmin, "max_fun_evals": 110 if mode == "det" else 140, "noise_final_samples": 0}
+        specs.append(sp)
+    return specs
+
+
 def checks(ctx, rep):
     if getattr(ctx, "_c15_extra", True) and not getattr(ctx, "_replaying", False):
         runlevel.with_extra(ctx, "c15he", lambda: he_specs(ctx))
         runlevel.with_extra(ctx, "c15far", lambda: far_basin_specs(ctx))
+        runlevel.with_extra(ctx, "c15long", lambda: long_log_specs(ctx))
         runlevel.with_extra(ctx, "c15beta", lambda: configured_beta_specs(ctx))
         # runs with LinAlgError injected into GP.fit (C16's pool): the surrogate must stay conditioned on the selected set through the retries
         from . import c16
